@@ -88,8 +88,8 @@ var u256 = uintOps{
 	},
 }
 
-func obsBytes(f func() ([]byte, error)) string {
-	return hx.Safe(func() string {
+func obsBytes(c *ctx, f func() ([]byte, error)) string {
+	return c.safe(func() string {
 		b, err := f()
 		if err != nil {
 			return "err"
@@ -135,8 +135,8 @@ func famUint(c *ctx) {
 	case 1:
 		b = r.Bytes(ops.size + r.Range(-1, 1))
 	}
-	c.line(fmt.Sprintf("u_decbe %d %s", ops.size, hx.Hex(b)), obsBytes(func() ([]byte, error) { return ops.decBE(append([]byte{}, b...)) }))
-	c.line(fmt.Sprintf("u_decle %d %s", ops.size, hx.Hex(b)), obsBytes(func() ([]byte, error) { return ops.decLE(append([]byte{}, b...)) }))
+	c.line(fmt.Sprintf("u_decbe %d %s", ops.size, hx.Hex(b)), obsBytes(c, func() ([]byte, error) { return ops.decBE(append([]byte{}, b...)) }))
+	c.line(fmt.Sprintf("u_decle %d %s", ops.size, hx.Hex(b)), obsBytes(c, func() ([]byte, error) { return ops.decLE(append([]byte{}, b...)) }))
 	s := sBE
 	switch r.Intn(6) {
 	case 0:
@@ -152,8 +152,8 @@ func famUint(c *ctx) {
 	case 4:
 		s = hex.EncodeToString(r.Bytes(ops.size + r.Range(-1, 1)))
 	}
-	c.line(fmt.Sprintf("u_decstrbe %d %s", ops.size, hs(s)), obsBytes(func() ([]byte, error) { return ops.decStrBE(s) }))
-	c.line(fmt.Sprintf("u_decstrle %d %s", ops.size, hs(s)), obsBytes(func() ([]byte, error) { return ops.decStrLE(s) }))
+	c.line(fmt.Sprintf("u_decstrbe %d %s", ops.size, hs(s)), obsBytes(c, func() ([]byte, error) { return ops.decStrBE(s) }))
+	c.line(fmt.Sprintf("u_decstrle %d %s", ops.size, hs(s)), obsBytes(c, func() ([]byte, error) { return ops.decStrLE(s) }))
 	c.o.Count(fmt.Sprintf("uint:%d", ops.size*8))
 	c.o.Seen("u/" + sBE)
 }
